@@ -22,6 +22,15 @@ def where(t):
     return "%s:%s" % (norm_file(sp.get("file")), sp.get("line"))
 
 
+LOSSLESS = {
+    "core::char::convert::<impl core::convert::From<char> for u32>::from",
+    "core::convert::num::<impl core::convert::From<u8> for u32>::from",
+    "core::convert::num::<impl core::convert::From<u16> for u32>::from",
+    "<T as core::convert::Into<U>>::into",
+    "<T as core::convert::From<T>>::from",
+}
+
+
 def lookup_sites(prog, rep, floor=2):
     """L3: every table lookup has the shape  T.binary_search_by(|e| e[.0].partial_cmp(&cp).unwrap())
     with receiver = the element, argument = the captured code point, and any T[idx] indexes the same
@@ -68,6 +77,8 @@ def lookup_sites(prog, rep, floor=2):
                 cap_desc = prov.describe(cap)
                 # the captured value must be the function's code point: an argument or an IntToInt cast of one
                 arg_ok = cap[0] == "arg" or (cap[0] == "op" and cap[1]["k"] == "cast" and prov.operand_origin(b, cap[1]["op"], defs)[0] == "arg")
+                if cap[0] == "call" and cap[1] and cap[1]["path"] in LOSSLESS and prov.operand_origin(b, cap[4]["args"][0], defs)[0] == "arg":
+                    arg_ok = True  # u32::from(c): the same code point
         rep.ob("L3-orientation", inst + " argument", arg_ok, "partial_cmp argument is %s / capture %s; must be the captured code point" % (prov.describe(arg), cap_desc), where(ct))
         # the closure returns unwrap(partial_cmp(..))
         ret = prov.origin(cbody, 0, cdefs)
